@@ -57,7 +57,7 @@ func genSendTok(r *Rng) string {
 	kind := []string{"MSG", "EXT", "FWD", "PFM", "RAWM"}[r.Intn(5)]
 	if kind == "RAWM" {
 		var b []byte
-		switch r.Intn(5) {
+		switch r.Intn(7) {
 		case 0: // a library-encoded message with a chunk
 			m := &protocol.Message{Tag: "raw", Timestamp: 7, Record: map[string]interface{}{"chunk": "decoy"}, Options: &protocol.MessageOptions{Chunk: string(genChunkID(r))}}
 			b, _ = m.MarshalMsg(nil)
@@ -68,6 +68,15 @@ func genSendTok(r *Rng) string {
 			b, _ = (&protocol.Message{Tag: "raw", Timestamp: 7, Record: map[string]interface{}{}}).MarshalMsg(nil)
 		case 3:
 			b = r.Bytes(1 + r.Intn(30))
+		case 4: // a large pre-encoded message: longer than the stream writer's buffer
+			sz := []int{1990, 2010, 2020, 2030, 2048, 2100, 4096, 4200, 9000}[r.Intn(9)]
+			m := &protocol.Message{Tag: "raw", Timestamp: 7, Record: map[string]interface{}{"p": string(r.Bytes(sz))}}
+			if r.Bool() {
+				m.Options = &protocol.MessageOptions{Chunk: string(genChunkID(r))}
+			}
+			b, _ = m.MarshalMsg(nil)
+		case 5:
+			b = r.Bytes([]int{2047, 2048, 2049, 4096, 4097, 10243}[r.Intn(6)])
 		default:
 			b = nil
 		}
@@ -78,6 +87,9 @@ func genSendTok(r *Rng) string {
 	a.ts = genInt(r)
 	a.t = genGoTime(r)
 	a.opts = genGoOptions(r)
+	if a.opts != nil && a.opts.Chunk == "" && r.Chance(40) {
+		a.opts.Chunk = string(genChunkID(r))
+	}
 	switch kind {
 	case "MSG", "EXT":
 		a.rec = genSmallRec(r, 2, big)
@@ -97,7 +109,7 @@ func genSendTok(r *Rng) string {
 }
 
 var respModes = []string{"match", "match", "match", "other", "prefix", "emptymap", "emptyack", "extrabefore", "extraafter", "garbage", "nonmap",
-	"binack", "trunc", "trailing", "eof", "sil"}
+	"binack", "trunc", "trailing", "eof", "sil", "dupack", "dupack2", "extralong", "extraafter", "extralong"}
 var pongModes = []string{"honest", "honest", "honest", "authfalse", "wrongkey", "wrongsalt", "wrongnonce", "wronghost", "reflect", "replay",
 	"emptydigest", "truncdigest", "trunc", "garbage", "upper", "none", "sil"}
 var heloModes = []string{"std", "std", "std", "std", "nilopts", "garbage", "trunc", "none", "arity3", "extra", "n=", "n=00ff"}
@@ -116,7 +128,12 @@ func genTcpOp(r *Rng, st *int) string {
 		if r.Chance(10) {
 			f = genFault(r, 100)
 		}
-		return fmt.Sprintf("HS(%s;%s;%s)", heloModes[r.Intn(len(heloModes))], pongModes[r.Intn(len(pongModes))], f)
+		hm := heloModes[r.Intn(len(heloModes))]
+		if r.Chance(12) {
+			// nonce lengths around the block sizes of the digest and of common scratch buffers
+			hm = "n=" + hx(r.Bytes([]int{1, 15, 100, 111, 112, 128, 470, 480, 495, 496, 497, 512, 600, 3000}[r.Intn(14)]))
+		}
+		return fmt.Sprintf("HS(%s;%s;%s)", hm, pongModes[r.Intn(len(pongModes))], f)
 	case 5:
 		return "TP"
 	case 6:
@@ -131,6 +148,9 @@ func genTcpOp(r *Rng, st *int) string {
 		resp := respModes[r.Intn(len(respModes))]
 		if r.Chance(15) {
 			resp = fmt.Sprintf("split%d", 1+r.Intn(30))
+		} else if r.Chance(35) {
+			// any response, delivered in two fragments
+			resp = fmt.Sprintf("%s@%d", resp, 1+r.Intn(48))
 		}
 		return fmt.Sprintf("SND(%s;%s;%s)", genSendTok(r), resp, genFault(r, 3000))
 	}
@@ -173,6 +193,12 @@ func genCfg(r *Rng) string {
 		}
 	}
 	host := []string{"client.example", "", "server.example", "h"}[r.Intn(4)]
+	if r.Chance(6) {
+		host = strings.Repeat("h", []int{64, 255, 480, 500, 1000}[r.Intn(5)])
+	}
+	if key != "-" && r.Chance(6) {
+		key = hx(r.Bytes([]int{64, 128, 500, 1000}[r.Intn(4)]))
+	}
 	return fmt.Sprintf("CFG(%s;%s;%s;%s)", key, renderBool(r.Bool()), renderBool(r.Chance(85)), hx([]byte(host)))
 }
 
@@ -188,8 +214,36 @@ func genTcp(o *Out, r *Rng, n int, tier string) {
 				args = append(args, "HS(std;honest;-)")
 			}
 		}
+		var sends []string
+		if r.Chance(12) {
+			// a retry: the same message, with the same chunk id, sent again and answered differently
+			tok := genSendTok(r)
+			first := []string{"match", "match", "extraafter", "trailing", "trunc", "other"}[r.Intn(6)]
+			a := fmt.Sprintf("SND(%s;%s;-)", tok, first)
+			sends = append(sends, a)
+			args = append(args, a)
+			for k := 1 + r.Intn(2); k > 0; k-- {
+				second := respModes[r.Intn(len(respModes))]
+				if r.Chance(40) {
+					// responses that are maps but say nothing about this chunk
+					second = []string{"emptymap", "emptymap", "emptyack", "extrabefore", "other"}[r.Intn(5)]
+				}
+				args = append(args, fmt.Sprintf("SND(%s;%s;-)", tok, second))
+			}
+		}
 		for j := 0; j < ln; j++ {
-			args = append(args, genTcpOp(r, &st))
+			a := genTcpOp(r, &st)
+			if strings.HasPrefix(a, "SND(") {
+				if len(sends) > 0 && r.Chance(30) {
+					// the same message (and chunk id) again, possibly answered differently
+					prev := sends[r.Intn(len(sends))]
+					tok := prev[4:strings.LastIndex(prev[:strings.LastIndex(prev, ";")], ";")]
+					resp := respModes[r.Intn(len(respModes))]
+					a = fmt.Sprintf("SND(%s;%s;-)", tok, resp)
+				}
+				sends = append(sends, a)
+			}
+			args = append(args, a)
 		}
 		o.emit("C06", "SEQ", args...)
 	}
